@@ -1859,6 +1859,23 @@ func TestVerifSched(t *testing.T) {
 			}
 		}
 	} else {
+		// regression corpus first: scripts on which model and scheduler once disagreed (VERIF_CORPUS=<dir>, *.txt, one script per line)
+		if cd := os.Getenv("VERIF_CORPUS"); cd != "" {
+			files, _ := filepath.Glob(filepath.Join(cd, "*.txt"))
+			sort.Strings(files)
+			for _, f := range files {
+				data, _ := os.ReadFile(f)
+				for _, ln := range strings.Split(string(data), "\n") {
+					if ln = strings.TrimSpace(ln); ln != "" && !strings.HasPrefix(ln, "#") {
+						if _, _, err := schedParse(ln); err != nil {
+							t.Fatalf("corpus %s: %v", f, err)
+						}
+						jobs = append(jobs, schedJob{script: ln})
+						out.Count("corpus_scripts")
+					}
+				}
+			}
+		}
 		root := zzverif.NewRng(zzverif.Seed())
 		n := zzverif.EnvInt("VERIF_N", 300)
 		for i := 0; i < n; i++ {
